@@ -97,8 +97,9 @@ pub fn dataset_eps(cx: &mut Ctx, ti: usize, d: &[u8], what: &dyn Fn() -> String,
             Out::Ok
         });
     }
-    // LazyDataSetReader: advance + skip / into_owned / nothing
-    let mut lazy: Vec<(&str, OddLengthStrategy, &str)> = vec![("skip", OddLengthStrategy::Accept, "accept"), ("owned", OddLengthStrategy::Accept, "accept"), ("advance-only", OddLengthStrategy::Accept, "accept")];
+    // LazyDataSetReader: advance + skip / into_owned
+    // (not consuming a value token is documented misuse and is not part of the universe)
+    let mut lazy: Vec<(&str, OddLengthStrategy, &str)> = vec![("skip", OddLengthStrategy::Accept, "accept"), ("owned", OddLengthStrategy::Accept, "accept")];
     if depth == Depth::Full {
         lazy.push(("owned", OddLengthStrategy::NextEven, "nexteven"));
         lazy.push(("skip", OddLengthStrategy::Fail, "fail"));
